@@ -1,6 +1,6 @@
 (** non-vacuity for C07: concrete texts meeting the hypotheses of the main theorems *)
 From Coq Require Import List NArith ZArith Bool.
-From ApiFu Require Import Base.Sexp Lex.Utf8 Lex.LexModel Lex.LexSpec Lex.LexRel Lex.LexProgress Lex.LexMode Lex.LexRefine.
+From ApiFu Require Import Base.Sexp Lex.Utf8 Lex.LexModel Lex.LexSpec Lex.LexRel Lex.LexProgress Lex.LexMode Lex.LexRefine Lex.LexErrors Lex.LexApi Lex.LexApiSpec.
 Import ListNotations.
 
 (** BOM { a(x: "h\u00e9\n<e-acute>", y: <block string over four lines with CRLF, indentation and an
@@ -58,3 +58,32 @@ Proof. vm_compute. repeat split. Qed.
 (** hypothesis of C07_lex_invalid_utf8_rejected: a stray continuation byte inside a string *)
 Example invalid_utf8_hypothesis : utf8_decode [34; 128; 34]%N = None.
 Proof. vm_compute. reflexivity. Qed.
+
+(** C07_lex_error_positions on bad_text2 = "\x" #NUL (two errors, both inside the text, the second
+    later than the first) and on the unterminated string of bad_text (one error, at the LF) *)
+Example bad_text2_error_positions :
+  lex true bad_text2 = Done (match lex true bad_text2 with Done ts _ => ts | _ => [] end)
+                            (map (fun n => advance_pos (1, 1) n bad_cps2) [2; 6]%nat) /\
+  length bad_cps2 = 7%nat.
+Proof. vm_compute. repeat split. Qed.
+
+(** C07_lex_error_positions_bytes on an input that is NOT valid UTF-8: the four errors of
+    hostile_scans sit at rune boundaries 1, 4, 6 and 6 (the last two at the same place: the
+    exponent without digits and the NUL that follows) *)
+Example hostile_error_boundaries :
+  match lex true [34; 128; 34; 46; 49; 101; 0]%N with
+  | Done _ es => es = [(1, 2); (1, 5); (1, 7); (1, 7)]%Z
+  | OutOfFuel => False
+  end.
+Proof. vm_compute. repeat split. Qed.
+
+(** C07_api_call_order on a two-token source in mode 0: observers before the first Scan, repeated
+    observers, Scan twice after the end *)
+Definition api_src : bytes := [97; 32; 34; 98; 34]%N.   (* a "b" *)
+Example api_trace :
+  run false api_src [CLiteral; CPosition; CScan; CStringValue; CStringValue; CScan; CLiteral; CStringValue;
+                     CScan; CScan; CToken; CPosition; CLiteral; CStringValue; CErrors] =
+  [RBytes []; RPos 0 0; RBool true; RBytes [97%N]; RBytes [97%N]; RBool true; RBytes [34; 98; 34]%N; RBytes [98%N];
+   RBool false; RBool false; RTok INVALID; RPos 1 6; RBytes []; RBytes []; RErrs []] /\
+  end_pos api_src = (1, 6)%Z.
+Proof. vm_compute. repeat split. Qed.
